@@ -30,8 +30,8 @@ CLAIMED = {
    "Type-directed program generation against an independent reference interpreter: 100 000 (quick) / 3 000 000 (thorough) generated expressions (25% ill-typed by construction, incl. type errors hidden behind the empty array's element type) plus a bounded-exhaustive layer (every binary operator x 18 x 18 leaves of all types, unary, index, tuple access, calls, ?:/if; depth 2 over 7 leaves) are parsed, type-checked exactly as the filter / hashBy / log-format loaders do, and - if accepted - evaluated in the real rule environment (create_context over generated request attributes). Accepted => no panic, result of the accepted type, equal to the reference value where the documentation defines one, or a dynamic error (division by zero, overflow, index, regex, non-numeric) that some evaluated sub-term can produce; && / || / if / ?: must not evaluate the operand they skip.",
    "Trusted: the reference semantics of DESIGN.md Appendix A (deliberately agnostic where the documentation is silent: overflow may wrap or error, negative indexes may count from the end, to_string of a string is judged for type only); error classes are recognised by message text; the parser's documented nesting limit (16) is tolerated.",
    "proptest type-directed generation + bounded-exhaustive enumeration vs reference interpreter (differential)", "§3 C08, Appendix A"),
- "C02": ("vp-inproc", "exploration",
-   "Model check of the real process_request over generated rule lists x requests x connector feature sets (20 000 quick / 400 000 thorough): each filter has an independent reference evaluation (error => no match); exactly the predicted connector's connect() must run once and be recorded, or none at all with on_error only (deny / no rule / feature missing). cidr_match is compared with own mask arithmetic for all prefix lengths at the network boundaries (30 000 / 1 000 000). The end-to-end part (no origin receives a byte on deny; attributes equal the real socket values) is added with the e2e engine.",
+ "C02": ("both", "exploration",
+   "Model check of the real process_request over generated rule lists x requests x connector feature sets (20 000 quick / 400 000 thorough): each filter has an independent reference evaluation (error => no match); exactly the predicted connector's connect() must run once and be recorded, or none at all with on_error only (deny / no rule / feature missing). cidr_match is compared with own mask arithmetic for all prefix lengths at the network boundaries (30 000 / 1 000 000). End-to-end: 400 (quick) / 12 000 (thorough) generated rule lists installed with POST /api/rules on real proxies, 3 probes each (HTTP CONNECT, SOCKS5, SOCKS4/4a, reverse listener, SOCKS5 UDP ASSOCIATE) from harness-bound source ports with a marked payload pipelined behind the handshake: the reference connector serves (identified by the address the origin sees), exactly one upstream connection carries exactly the payload; on deny / no rule / unsupported feature no origin or upstream accepts anything and the payload appears nowhere; filters over request.source / request.listener name the real socket values of probe i.",
    "Trusted: the reference interpreter shared with C08 (restricted here to atoms inside its defined fragment), harness connectors that record calls.",
    "proptest model-based: reference decision procedure vs real process_request; boundary-value cidr law", "§3 C02"),
  "C17": ("vp-inproc", "exploration",
@@ -51,7 +51,7 @@ CLAIMED = {
    "Trusted: refcodec parsers; harness-side fake upstreams and origin; 15 s per-step I/O deadlines (a miss is reported as a missing reply).",
    "enumerated outcome grid + reference parsing of raw client bytes", "§3 C06"),
  "C13": ("vp-e2e", "exploration",
-   "Five real proxy instances with different timeouts sections, six tunnel kinds, five traffic patterns (56 cases quick, ~190 thorough, all cases of an instance in parallel): /api/live must show the configured idle_timeout for the tunnel kind; with T in 1..3 s the tunnel must be closed between T-0.1 s and T+2.5 s after the last byte and never during a trickle with period 0.6 T; with 0 or 600 it must still be open after 4 s.",
+   "Five real proxy instances with different timeouts sections, six tunnel kinds, seven traffic patterns incl. half-closed-then-silent tunnels (76 cases quick, ~250 thorough, all cases of an instance in parallel): /api/live must show the configured idle_timeout for the tunnel kind; with T in 1..3 s the tunnel must be closed between T-0.1 s and T+2.5 s after the last byte and never during a trickle with period 0.6 T; with 0 or 600 it must still be open after 4 s.",
    "Trusted: wall clock of the sandbox; an upper-bound miss while the harness heartbeat detected a host stall (> 0.6 s) is counted inconclusive, lower bounds and the wiring check have no such dependence.",
    "generated traffic patterns against real processes, oracle = timing bounds + configuration wiring read from the API", "§3 C13"),
  "C16": ("both", "exploration",
@@ -75,11 +75,11 @@ CLAIMED = {
    "Trusted: the re-enactment of main() in the harness for (a) (kept line-for-line; (b) runs the real main); access-log paths are redirected into the scratch directory; stack depth is that of the dev-profile binary (2 MB worker threads), the deepest configuration in use.",
    "proptest structural mutation fuzzing of configuration trees and JSON bodies against the loader and the real binary + bounded enumeration of a size ladder, oracle = Ok/Err with message, no panic / signal, liveness after traffic", "§3 C18"),
  "C10": ("vp-e2e", "exploration",
-   "Two real proxies (A in front of B): all 3 x 5 UDP listener x upstream pairings (SOCKS5 UDP ASSOCIATE with enforceUdpClient off/on, reverse-UDP, HTTP CONNECT with inline RPFM frames) x (direct, socks5->B, http->B, QUIC datagrams->B, QUIC inline->B) once each, then 30 (quick) / 1 500 (thorough) generated cases of 1-5 interleaved sessions sending datagrams of 0..65000 bytes to three tagging echo origins, incl. clients that vanish while a reply is in flight; every datagram must reach the addressed origin exactly once unmodified (also the first of a session and multi-fragment ones), every reply must return to the owning client labelled with the replying origin, and no origin may receive a datagram nobody sent.",
+   "Two real proxies (A in front of B): all 3 x 5 UDP listener x upstream pairings (SOCKS5 UDP ASSOCIATE with enforceUdpClient off/on, reverse-UDP, HTTP CONNECT with inline RPFM frames) x (direct, socks5->B, http->B, QUIC datagrams->B, QUIC inline->B) once each, then 30 (quick) / 1 500 (thorough) generated cases of 1-5 interleaved sessions sending datagrams of 0..65000 bytes to three tagging echo origins, incl. clients that vanish while a reply is in flight and bursts of up to six datagrams sent back to back (inline: in one write); every datagram must reach the addressed origin exactly once unmodified (also the first of a session and multi-fragment ones), every reply must return to the owning client labelled with the replying origin, and no origin may receive a datagram nobody sent.",
    "Trusted: loopback does not lose or reorder datagrams at the pacing used (one outstanding datagram per session); refcodec for the SOCKS5-UDP header and RPFM frames. TPROXY UDP is not set up. In this sandbox an ICMP port-unreachable is not delivered to the proxy's connected session socket, so the receive-error path of UdpFrameReader is not reachable.",
    "stateful generated sessions against real processes, oracle = multiset equality of datagrams per origin + reply labelling", "§3 C10"),
  "C07": ("both", "fault_enumeration",
-   "(a) in-process: 20 000 / 600 000 generated SOCKS negotiations (method offers incl. both orders, duplicates, 255 arbitrary methods; credential near-misses; SOCKS4 ids; byte-wise delivery) against the real SocksRequest::read_from + AuthData::check with a positive control, and 40 / 800 real-clock histories against the external-command verdict cache (1 s timeout, similar names/passwords) where every verdict must be justified by a call for exactly that pair or a fresh cached verdict for the identical pair. (b) end-to-end, enumerated in full: 36 listener cells (http/socks/quic x client-cert policy x presented certificate), 48 connector cells (http/socks/quic x insecure x ca x upstream certificate valid/foreign/wrong-name/expired against harness TLS and QUIC upstreams) and 60 SOCKS credential cases through the real listener with smuggled payload.",
+   "(a) in-process: 20 000 / 600 000 generated SOCKS negotiations (method offers incl. both orders, duplicates, 255 arbitrary methods; credential near-misses; SOCKS4 ids; byte-wise delivery) against the real SocksRequest::read_from + AuthData::check with a positive control, and 40 / 800 real-clock histories against the external-command verdict cache (1 s timeout, or 0 = disabled; similar names/passwords) where every verdict must be justified by a call for exactly that pair or a fresh cached verdict for the identical pair. (b) end-to-end, enumerated in full: 36 listener cells (http/socks/quic x client-cert policy x presented certificate), 48 connector cells (http/socks/quic x insecure x ca x upstream certificate valid/foreign/wrong-name/expired against harness TLS and QUIC upstreams) and 60 SOCKS credential cases through the real listener with smuggled payload.",
    "Trusted: the openssl-generated test PKI; rustls/quinn in the harness as the peer implementation; guard bands of 0.3 s around the 1 s cache timeout.",
    "enumerated credential/certificate matrices + proptest negotiation cases + model-based cache histories", "§3 C07"),
 }
